@@ -15,6 +15,7 @@ def run_history(args):
     # `live`: the history is only ever run on live objects (never fed to a collection as texts), so it
     # may also use odd message IDs, add the same message *object* again and call msg.merge(ro) directly
     g = gen_hist.Gen(rng, odd_message_ids=live, corner_durations=not views)        # (accessor views need usable timing values)
+    all_direct = live and rng.random() < 0.2
     n = rng.randrange(1, max_steps + 1)
     ro_tree = g.ro(rng.randrange(0, 5))
     ro_text = TJ.to_text(ro_tree)
@@ -66,7 +67,7 @@ def run_history(args):
             step['obj'] = obj
             # (msg.merge(ro) on a COMPLETED running order bypasses the guard of `+`; the accessor checks follow it there too,
             # the merge-family checks do not: the model of `+` refuses)
-            direct = live and ((not step['completed_before'] and rng.random() < 0.12) or (views and step['completed_before'] and rng.random() < 0.4))
+            direct = live and ((not step['completed_before'] and (all_direct or rng.random() < 0.12)) or (views and step['completed_before'] and rng.random() < 0.4))
             step['obs'] = impl.add(ro, mo, via='merge' if direct else 'add')
             step['via'] = 'merge' if direct else 'add'
             step['kind'] = kc['kind']
@@ -406,7 +407,9 @@ def _run_plans(plans, prefix, views=False):
             docs.append(msg_text)
             step = {'ro_before': state, 'msg_text': msg_text, 'cls': cls, 'k': k, 'completed_before': bool(ro.completed),
                     'reused_object': reused, 'via': 'add', 'obj': obj}
-            step['obs'] = impl.add(ro, mo)
+            via_ = 'merge' if (k % 3 == 1 and not ro.completed) else 'add'      # both entry points, along one history
+            step['obs'] = impl.add(ro, mo, via=via_)
+            step['via'] = via_
             step['kind'] = type(mo).__name__
             step['completed_after'] = bool(ro.completed)
             if views:
